@@ -525,6 +525,10 @@ func aggqRound4Facts(b *strings.Builder, t *tr) {
 		t2 := &tr{pkg: p, known: map[string]string{}}
 		aggqEmit(b, t2, "returnIfBorrowed", "", "ReturnSampleIfBorrowed", "core/coreutil/sample.go")
 		aggqEmit(b, t2, "bufferSizeOrDefault", "BufferSizeConfig", "BufferSizeOrDefault", "core/coreutil/buffer_size_config.go")
+		// the shared rps schedule's wrapper: when and how often the on-finish callback is called
+		aggqEmit(b, t2, "newCallbackSchedule", "", "NewCallbackOnFinishSchedule", "core/coreutil/schedule.go")
+		aggqEmit(b, t2, "callbackScheduleNext", "callbackOnFinishSchedule", "Next", "core/coreutil/schedule.go")
+		aggqEmit(b, t2, "callbackScheduleLeft", "callbackOnFinishSchedule", "Left", "core/coreutil/schedule.go")
 		for _, c := range [][2]string{{"DefaultBufferSize", "bufferDefaultSize"}, {"MinimalBufferSize", "bufferMinimalSize"}} {
 			v, ok := aggqPkgConstNat(p, c[0])
 			if !ok {
@@ -588,4 +592,79 @@ func aggqRound4Facts(b *strings.Builder, t *tr) {
 		t.errs = append(t.errs, t2.errs...)
 	}
 	aggqRegistrations(b, t)
+}
+
+// ---- (d) how NewPhout opens its destination
+
+// aggqFsOpenCall: `x.Create(p)` / `x.OpenFile(p, flags, perm)` where x is an afero.Fs → the receiver's text
+func (s *aggqSkel) aggqFsOpenCall(c *ast.CallExpr) (string, bool) {
+	sel, ok := c.Fun.(*ast.SelectorExpr)
+	if !ok {
+		return "", false
+	}
+	if !(sel.Sel.Name == "Create" && len(c.Args) == 1) && !(sel.Sel.Name == "OpenFile" && len(c.Args) == 3) {
+		return "", false
+	}
+	ty := s.t.pkg.TypesInfo.TypeOf(sel.X)
+	if ty == nil || !(strings.HasSuffix(types.TypeString(ty, nil), "afero.Fs") || strings.HasSuffix(types.TypeString(ty, nil), "afero.Afero")) {
+		return "", false
+	}
+	return s.csrc(sel.X), true
+}
+
+// aggqOpenFlagsOf: the flags and permission the function opens a file with through an afero.Fs (n = how many such
+// calls it has). `Fs.Create(name)` is documented (afero, like os.Create) as OpenFile(name, O_RDWR|O_CREATE|O_TRUNC, 0666).
+func aggqOpenFlagsOf(t *tr, p *packages.Package, fd *ast.FuncDecl) (flags, perm int64, n int) {
+	osConst := func(name string) int64 {
+		for _, imp := range p.Types.Imports() {
+			if imp.Path() != "os" {
+				continue
+			}
+			if c, ok := imp.Scope().Lookup(name).(*types.Const); ok {
+				v, _ := constant.Int64Val(constant.ToInt(c.Val()))
+				return v
+			}
+		}
+		return -1
+	}
+	flags, perm = -1, -1
+	if fd == nil || fd.Body == nil {
+		return
+	}
+	sk := &aggqSkel{t: t}
+	ast.Inspect(fd.Body, func(nd ast.Node) bool {
+		c, ok := nd.(*ast.CallExpr)
+		if !ok {
+			return true
+		}
+		if _, isOpen := sk.aggqFsOpenCall(c); !isOpen {
+			return true
+		}
+		n++
+		if len(c.Args) == 1 {
+			rd, cr, tr := osConst("O_RDWR"), osConst("O_CREATE"), osConst("O_TRUNC")
+			if rd >= 0 && cr >= 0 && tr >= 0 {
+				flags, perm = rd|cr|tr, 0o666
+			}
+		} else {
+			if v, ok := aggqConst(t, p, c.Args[1]); ok {
+				flags = v
+			}
+			if v, ok := aggqConst(t, p, c.Args[2]); ok {
+				perm = v
+			}
+		}
+		return true
+	})
+	return
+}
+
+// aggqPhoutOpenFlags: the flags NewPhout's destination is opened with
+func aggqPhoutOpenFlags(b *strings.Builder, t *tr, p *packages.Package) {
+	flags, _, n := aggqOpenFlagsOf(t, p, aggqFindMethod(p, "", "NewPhout"))
+	if n != 1 || flags < 0 {
+		t.errs = append(t.errs, fmt.Sprintf("core/aggregator/netsample/phout.go: NewPhout opens its destination %d times through the afero.Fs with constant flags (want once)", n))
+		flags = 0
+	}
+	fmt.Fprintf(b, "/-- regenerated: the flags `NewPhout` opens its destination with (`Fs.Create` = O_RDWR|O_CREATE|O_TRUNC) -/\ndef phoutOpenFlags : Nat := %d\n\n", flags)
 }
